@@ -270,12 +270,12 @@ return (got, ('ok', rows, hdr))
                meta={'query': q, 'bounds': 'every CSV text with line lengths %s; caller flag %r' % (lens, flag)})
 
 
-def _header_join_obl(flag, mod, timeout):
+def _header_join_obl(flag, mod, timeout, named=False):
     pa, prea, ea = str_params('x', 1)
     pb, preb, eb = str_params('y', 1)
     body = indent('''
 xa = %s
-yb = %s
+yb = %s if not NAMED else 'q'     # named variants: one symbolic character is enough (the binding, not the data, is the subject)
 text_a = 'k,v' + chr(10) + xa + ',1' + chr(10) + 'k,2' + chr(10)
 text_b = 'k,w' + chr(10) + yb + ',7' + chr(10) + 'k,8' + chr(10)
 eff = FLAG
@@ -293,13 +293,21 @@ class Reg(rbql_engine.RBQLTableRegistry):
 
 out = []
 it = rbql_csv.CSVRecordIterator(stubs.PieceIn([text_a]), None, ',', 'quoted', has_header=FLAG)
-rbql_engine.query(QUERY, it, rbql_engine.TableWriter(out), [], Reg())
-return (out, exp)
+if not NAMED:
+    rbql_engine.query(QUERY, it, rbql_engine.TableWriter(out), [], Reg())
+    return (out, exp)
+# column-NAME variables of both tables: available exactly when the effective mode (modifier wins) has a header line
+try:
+    rbql_engine.query(QUERY, it, rbql_engine.TableWriter(out), [], Reg())
+    got = ('ok', out)
+except (rbql_engine.RbqlParsingError, rbql_engine.RbqlRuntimeError) as e:
+    got = ('err', [])
+return (got, ('ok', exp) if eff else ('err', []))
 ''' % (ea, eb))
-    q = 'select a1, a2, b2 join B on a1 == b1' + MODS[mod]
+    q = ('select a.k, a["v"], b.w join B on a.k == b.k' if named == 1 else "select a1, a2, b['w'] join B on a1 == b1" if named == 2 else 'select a1, a2, b2 join B on a1 == b1') + MODS[mod]
     pre = prea + preb + ['%s not in (10, 13, 34, 44)' % n for n, _t in pa + pb]
-    src = harness('from vf import csvh\nfrom vf.refmodel import csvref\nFLAG = %r\nMOD = %r\nQUERY = %r\n' % (flag, mod, q), pa + pb, pre, body)
-    return Obl('header_line_join[flag=%d,mod=%s]' % (flag, mod), src, timeout=timeout, meta={'query': q, 'bounds': 'input and join CSV files of 3 lines with one symbolic key character each'})
+    src = harness('from vf import csvh\nfrom vf.refmodel import csvref\nFLAG = %r\nMOD = %r\nQUERY = %r\nNAMED = %r\n' % (flag, mod, q, named), pa + pb, pre, body)
+    return Obl('header_line_join[flag=%d,mod=%s%s]' % (flag, mod, ',named=%d' % named if named else ''), src, timeout=timeout, meta={'query': q, 'bounds': 'input and join CSV files of 3 lines with one symbolic key character each'})
 
 
 def selfcheck():
@@ -336,4 +344,6 @@ def obligations(tier, seed):
     for flag in (True, False):
         for mod in ('none', 'header', 'noheader'):
             obs.append(_header_join_obl(flag, mod, t))
+            obs.append(_header_join_obl(flag, mod, t, named=1))
+            obs.append(_header_join_obl(flag, mod, t, named=2))
     return obs
